@@ -139,6 +139,8 @@ def _set_with_op(container: Any, key: Any, op: str, value: Any) -> Any:
     key = _key_cast(container, key)
     value = copy.deepcopy(value)
 
+    _get_item(container, key)  # missing key or index: ParserError, like a plain read
+
     if op == '+=':
         container[key] += value
     elif op == '-=':
